@@ -30,6 +30,8 @@ MSGS = {
     'UPD1': (UPD_ROUTE, dict(kind='UPD')),
     'UPD_unkfam': (UPD_UNKFAM, dict(kind='UPD')),
     'UPD_malformed': (UPD_MALFORMED, dict(kind='UPD')),
+    'UPD_wdoverrun': (frame(2, b'\x07\x00\x00\x00\x40\x01\x01\x00'), dict(kind='UPD')),     # Withdrawn Routes Length beyond the message
+    'UPD_atoverrun': (frame(2, b'\x00\x00\x07\x00\x40\x01\x01\x00'), dict(kind='UPD')),     # Total Path Attribute Length beyond the message
     'NOTI_VER': (frame(3, b'\x02\x01'), dict(kind='NOTI', code=2, sub=1)),
     'NOTI_CEASE': (frame(3, b'\x06\x02'), dict(kind='NOTI', code=6, sub=2)),
     'NOTI_HDR': (frame(3, b'\x01\x02\x00\x13'), dict(kind='NOTI', code=1, sub=2)),
@@ -54,7 +56,7 @@ MSGS = {
 }
 ODD_LENGTH = ['OPEN_short', 'UPD_short', 'NOTI_short', 'KA_long', 'RR_short', 'RR_orf']
 ALPHABET_C01 = ['OPEN', 'OPEN_h0', 'OPEN_h1', 'OPEN_h2', 'OPEN_h9', 'OPEN_badver', 'OPEN_badas',
-                'KA', 'UPD', 'UPD1', 'UPD_unkfam', 'UPD_malformed', 'NOTI_VER', 'NOTI_CEASE', 'NOTI_HDR', 'NOTI_UPD', 'NOTI_HOLD', 'NOTI_FSM', 'NOTI_RR', 'NOTI_UNK', 'RR', 'BADMARK', 'BADLEN', 'BADLEN0',
+                'KA', 'UPD', 'UPD1', 'UPD_unkfam', 'UPD_malformed', 'UPD_wdoverrun', 'NOTI_VER', 'NOTI_CEASE', 'NOTI_HDR', 'NOTI_UPD', 'NOTI_HOLD', 'NOTI_FSM', 'NOTI_RR', 'NOTI_UNK', 'RR', 'BADMARK', 'BADLEN', 'BADLEN0',
                 'BADLEN4097', 'BADTYPE']
 ALPHABET_SMALL = ['OPEN', 'OPEN_h1', 'OPEN_badas', 'KA', 'UPD', 'NOTI_VER', 'NOTI_CEASE', 'BADMARK']
 
